@@ -26,7 +26,7 @@ TRUSTED = ["Go regexp engine and regexp.QuoteMeta (compared directly, not modell
            "strings.ToLower beyond ASCII", "sqlparser (query text -> AST)"]
 RULE = ("random tables (0-10 rows, typed columns, small value pools) x random predicates from the full operator "
         "grammar (depth<=5 quick / 8 thorough); non-trivial = predicate keeps >=1 and drops >=1 row; "
-        "distinct by (document, SQL)")
+        "distinct by (document, SQL); 1 in 10 tables is given as an array of arrays (2-3 inner arrays)")
 
 
 def in_subq_factory(doc_other):
@@ -65,6 +65,11 @@ def gen_case(rnd, depth):
     if rnd.random() < 0.12:
         # a predicate and its negation partition the rows — evaluated over the SAME table value within one statement
         q = ["union", [], select([["star"]], table("t"), wh=p), select([["star"]], table("t"), wh=["not", p]), False, [], None, None, {}]
+    elif rnd.random() < 0.1 and rows:
+        # the same rows as an array of arrays: WHERE must filter inside every inner array (each is run in a copy of the query)
+        i = rnd.randint(0, len(rows))
+        j = rnd.randint(i, len(rows))
+        doc = {"t": [rows[:i], rows[i:j], rows[j:]] if rnd.random() < 0.5 else [rows[:i], rows[i:]], "u": rows2}
     # the same table with its integral numbers stored as another Go number kind (the engine accepts all of them)
     nk = rnd.choice(["int", "int64", "int32", "int16", "int8", "uint", "uint64", "uint32", "uint16", "uint8", "float32", "mixed"]) \
         if rnd.random() < 0.2 else None
@@ -73,8 +78,10 @@ def gen_case(rnd, depth):
 
 
 def nontrivial(c, g, l):
-    n = len(c["doc"]["t"])
-    k = len(dec_val(g["v"])) if g["r"] == "ok" else -1
+    def flat(x):
+        return [r for y in x for r in (flat(y) if isinstance(y, list) else [y])]
+    n = len(flat(c["doc"]["t"]))
+    k = len(flat(dec_val(g["v"]))) if g["r"] == "ok" else -1
     return 0 < k < n
 
 
